@@ -1,12 +1,15 @@
 //! C08 runner.  Parent: builds the case list (well-formed frames from the extracted ENCODER via
-//! `ocaml/c08/driver gen`, every truncation point, field mutations, compressed variants, random
-//! bytes, the reproducers of the repaired crash inputs) and has the REAL decoders run on them in
+//! `ocaml/c08/driver gen`, 9 random truncation points per frame, mutations at random offsets and of
+//! encoder fields, compressed variants, typed cells with inflated counts, custom-type strings, two-frame
+//! streams for the chunked reader, random bytes, the reproducers of the repaired crash inputs) and has the REAL decoders run on them in
 //! CHILD processes (`--child`), each decode on a 2 MiB-stack thread under catch_unwind, the child
 //! under `ulimit -v` so that an out-of-proportion allocation aborts only the child.  A child that
-//! dies or does not answer within the per-input timeout is attributed to the single input it was
-//! working on (`abort` / `timeout`) and restarted behind it.
+//! dies or does not answer within the per-input wall-clock limit is stopped; the input it was working on
+//! is re-run alone in a fresh child (`abort` after repeated deaths, `timeout` only when that child burns the
+//! limit in CPU time, `notrun env-...` for everything the environment did) and the batch goes on behind it.
 //!
-//! line: `<KIND> <features> <mode> <framehex> | [dc=<hex>|dc=!] <status> m=<max single alloc> t=<total alloc>`
+//! line: `<KIND> <features> <mode> <framehex> | [dc=<hex>|dc=!] <status…> [tv=… tb=…] [q2=… sch=<chunk sizes>]
+//!        m=<max single alloc> t=<total alloc> s=<small-stack run: ok|differ|overflow|-> h=<stack high-water mark|->`
 use bytes::Bytes;
 use scylla_cql::frame::frame_errors::{FrameBodyExtensionsParseError, FrameHeaderParseError};
 use scylla_cql::frame::protocol_features::ProtocolFeatures;
@@ -1032,8 +1035,8 @@ fn preflight(exe: &std::path::Path, infile: &str) -> bool {
     let _ = std::fs::remove_file(&probe);
     ok
 }
-/// Second opinion on a case that made a child die / stall: the case alone in a fresh child with a
-/// generous timeout; if it dies again, once more without the small-stack run to tell which of the
+/// Second opinion on a case that made a child die / stall: the case alone in a fresh child, the same
+/// limit counted in CPU time of that child (ten times as much wall clock before `env-stall`); if it dies again, once more without the small-stack run to tell which of the
 /// two runs died.
 fn run_alone(exe: &std::path::Path, infile: &str, idx: usize, timeout_s: u64) -> String {
     let one = |bigonly: bool| -> Got {
@@ -1654,7 +1657,7 @@ fn gen_cases(a: &Args) -> Vec<String> {
             continue;
         }
         let big = f.len() > 4000;
-        // (b) every truncation point (sampled for long frames)
+        // (b) truncation points: all of them for frames of at most `budget` bytes (per / 8 + 2 = 9 at both tiers), else `budget` random ones (6 for frames above 4000 bytes)
         let budget = if big { 6 } else { per / 8 + 2 };
         if f.len() <= budget {
             for k in 0..f.len() {
